@@ -255,7 +255,7 @@ M("C12-field-doc-first-name-only", ["C12"], "pkg/types/package.go",
 M("C13-methods-by-name", ["C13"], "pkg/types/package.go",
   "					named = named.Origin()\n\n					p.methods[named] = append(p.methods[named], x)",
   "					named = named.Origin()\n					if o := pkg.Types.Scope().Lookup(named.Obj().Name()); o != nil {\n						if n, ok := o.Type().(*types.Named); ok {\n							named = n\n						}\n					}\n\n					p.methods[named] = append(p.methods[named], x)",
-  "methods keyed by the receiver's name: methods of a local type land on the package-level type of the same name")
+  "EQUIVALENT (control): methods cannot be declared on function-local types, so keying by name changes nothing")
 M("C13-sourcedir-no-subpath", ["C13"], "pkg/types/package.go",
   "		return filepath.Join(p.Module().Dir, p.Package.PkgPath[len(p.Module().Path):])", "		return filepath.Join(p.Module().Dir, filepath.Base(p.Package.PkgPath))", "SourceDir keeps only the last path element")
 M("C13-locate-prefix", ["C13"], "pkg/types/load.go", "		if dir == p.SourceDir() {", "		if p.SourceDir() != \"\" && strings.HasPrefix(dir, p.SourceDir()) {", "LocateInPackage matches by directory prefix")
@@ -317,7 +317,7 @@ M("C10-uint8-as-char", ["C10"], "pkg/gengo/internal/dumper.go",
 
 # ---------------------------------------------------------------- C11
 M("C11-recv-chan", ["C11"], "pkg/gengo/internal/dumper.go", '		return "chan " + d.TypeLit(tpe.Elem())', '		return "<-chan " + d.TypeLit(tpe.Elem())', "channels rendered receive-only")
-M("C11-drop-tags", ["C11"], "pkg/gengo/internal/dumper.go", '			if tag := f.Tag(); tag != "" {', '			if tag := f.Tag(); tag != "" && !strings.Contains(tag, " ") {', "struct tags with a blank are dropped")
+M("C11-drop-tags", ["C11"], "pkg/gengo/internal/dumper.go", '			if tag := f.Tag(); tag != "" {', '			if tag := f.Tag(); tag != "" && !strings.Contains(string(tag), " ") {', "struct tags with a blank are dropped")
 MUTANTS[-1]["edits"] = [dict(file="pkg/gengo/internal/dumper.go", old=MUTANTS[-1]["old"], new=MUTANTS[-1]["new"]),
                         dict(file="pkg/gengo/internal/dumper.go", old='	"strconv"\n', new='	"strconv"\n	"strings"\n')]
 M("C11-embedded-named", ["C11"], "pkg/gengo/internal/dumper.go", "			if !f.Anonymous() {", "			if !f.Anonymous() || tpe.NumField() > 2 {", "embedded fields of structs with more than two fields get a name")
